@@ -246,6 +246,27 @@ def template_code_survives(tier, seed):
                                          "patches": [(p.patch_category, p.source_slice.start, p.source_slice.stop, p.fixed_raw)
                                                      for p in (lf.source_patches or [])]},
                               "reproduced": True}]
+    # a shape found by a seeding agent's fuzzing on the UNCHANGED tree: a template comment inside an expression followed by an
+    # expression that renders to nothing -- the element after it gets a backwards source slice and its patch is applied on top of
+    # other text.  Kept apart under its own clause id (it is a recorded known finding) so that the generated grid stays decisive.
+    from sqlfluff.core import FluffConfig as _FC
+    lnt2 = Linter(config=_FC(configs={"core": {"dialect": "ansi", "templater": "jinja", "exclude_rules": "JJ01"},
+                                      "templater": {"jinja": {"context": {"e": ""}}}}))
+    for sql in ["SELECT a + \t{# c #}1  \n\n{{ e }},a"]:
+        try:
+            lf = lnt2.lint_string(sql, fix=True)
+            fixed, _ = lf.fix_string()
+        except Exception:
+            continue
+        ev += 1
+        before, after = tag.findall(sql), tag.findall(fixed)
+        if before != after:
+            failed.append({"name": "C10/e2e/template-code-unchanged[comment-then-empty-expression]",
+                           "id": "C10/e2e/template-code-unchanged[comment-then-empty-expression]", "kind": "bounded", "status": "failed",
+                           "function": "sqlfluff.core.linter.linter:Linter.lint_string",
+                           "detail": {"source": sql, "context": {"e": ""}, "fixed": fixed, "tags_before": before, "tags_after": after,
+                                      "patches": [(p.patch_category, p.source_slice.start, p.source_slice.stop, p.fixed_raw)
+                                                  for p in (lf.source_patches or [])]}, "reproduced": True})
     return {"name": "template-code-survives-fix", "bound": f"{n} generated templates (head x tag x body), JJ01 excluded",
             "rule": "non-trivial = the fix changed the text", "evaluations": ev, "distinct_nontrivial": nontriv,
             "samples": samples, "failed": failed}
